@@ -7,6 +7,7 @@ import (
 	"go/ast"
 	"go/constant"
 	"go/token"
+	"go/types"
 	"sort"
 	"strings"
 
@@ -18,10 +19,10 @@ func init() {
 		ID:    "C16",
 		Title: "Text<->value round-trips: literals, %q, tostring/tonumber, coercions, dates",
 		Explanation: "Decided: R16-onereader — 'tonumber, coercion and the lexer agree' holds structurally iff there is one numeral reader: strconv.Parse*/fmt scan functions are called only from parseNumber, from the explicit-base arm of tonumber and from two allow-listed sites outside C16's statement (io.read('*n'), decimal escapes); parseNumber never calls ParseInt with base 0 (Go's base-0 language — 0b, 0o, leading-zero octal, '_' — is not Lua's); a reader error in the compiler raises a compile error instead of being replaced by a constant; tonumber without a base, LVAsNumber, CheckNumber, arithmetic and getIntField all go through parseNumber; " +
-			"R16-q — in LString.Format the 'q' verb cannot reach package fmt (Go's %q writes \\x00, \\u… which the Lua reader does not understand); R16-strftime — every layout in cDateFlagToGo tokenises completely into Go reference-time tokens and separators and, for directives with a fixed C-locale meaning, equals that meaning (table from ISO C 7.27.3.5); R16-time — the field names os.date('*t') writes include every name os.time reads, os.time builds the time in the local zone and os.date converts to UTC only under '!'. " +
+			"R16-q — in LString.Format the 'q' verb cannot reach package fmt (Go's %q writes \\x00, \\u… which the Lua reader does not understand); R16-print — LNumber.String renders every integral value with plain digits (extra range conditions only beyond 2^53); R16-strftime — every layout in cDateFlagToGo tokenises completely into Go reference-time tokens and separators and, for directives with a fixed C-locale meaning, equals that meaning (table from ISO C 7.27.3.5); R16-time — the field names os.date('*t') writes include every name os.time reads, os.time builds the time in the local zone and os.date converts to UTC only under '!'. " +
 			"NOT decided: escape decoding, long brackets, shortest-round-trip printing, integral printing below 2^53 — value properties of strconv/fmt.",
 		Trusted: []string{"C-locale strftime meanings (ISO C) and Go reference-time tokens written out in the checker"},
-		Rules:   []func(*Ctx){ruleOneReader, ruleQ, ruleStrftime, ruleTime},
+		Rules:   []func(*Ctx){ruleOneReader, ruleQ, rulePrintInt, ruleStrftime, ruleTime},
 	})
 }
 
@@ -141,6 +142,79 @@ func ruleOneReader(c *Ctx) {
 			c.check(found && okc, R, "compiler-error-raises:"+name, p.ipos(cl), "a malformed numeral raises a compile error (or the folding helper declines it)", "a numeral the reader rejects (e.g. 1ex) is silently replaced by a constant (NaN) instead of being a syntax error")
 		}
 	}
+}
+
+// rulePrintInt: 'integral values below 2^53 print without exponent or fraction' — LNumber.String takes
+// the integer rendering for every integral value; additional range conditions are only acceptable when
+// their bounds are at least 2^53 in magnitude.
+func rulePrintInt(c *Ctx) {
+	const R = "R16-print"
+	c.floor(R, 1)
+	p := c.P
+	fn := c.need(R, "lua", "(LNumber).String")
+	if fn == nil {
+		return
+	}
+	g := p.G(fn)
+	isInt := p.Fn("lua", "isInteger")
+	okc, found := false, false
+	why := ""
+	allInstrs(fn, func(in ssa.Instruction) {
+		call, ok := in.(*ssa.Call)
+		if !ok {
+			return
+		}
+		pk, n, okc2 := stdCall(in)
+		if !okc2 || pk != "fmt" || !strings.HasPrefix(n, "Sprint") {
+			return
+		}
+		// the integer rendering: an argument converted to int64
+		intArg := false
+		for _, a := range call.Call.Args {
+			if strings.Contains(vkey(a), "p:nm") {
+				if sl, ok := a.(*ssa.Slice); ok {
+					_ = sl
+				}
+			}
+		}
+		allInstrs(fn, func(x ssa.Instruction) {
+			if cv, ok := x.(*ssa.Convert); ok && x.Block() == in.Block() {
+				if bt, ok := cv.Type().Underlying().(*types.Basic); ok && bt.Kind() == types.Int64 {
+					intArg = true
+				}
+			}
+		})
+		if !intArg {
+			return
+		}
+		found = true
+		okc = false
+		hasIsInt := false
+		extraOK := true
+		for _, cd := range g.CondsAtInstr(in) {
+			if cl, ok := cd.V.(*ssa.Call); ok && cl.Call.StaticCallee() == isInt && cd.Sense {
+				hasIsInt = true
+				continue
+			}
+			if b, ok := cd.V.(*ssa.BinOp); ok {
+				f1, ok1 := constFloat(b.X)
+				f2, ok2 := constFloat(b.Y)
+				bound := f1
+				if ok2 {
+					bound = f2
+				}
+				if (ok1 || ok2) && (bound >= 9007199254740992 || bound <= -9007199254740992) {
+					continue
+				}
+				extraOK = false
+				why = shortKey(vkey(b))
+			} else {
+				extraOK = false
+			}
+		}
+		okc = hasIsInt && extraOK
+	})
+	c.check(found && okc, R, "LNumber.String:integral→digits", p.pos(fn.Pos()), "every integral value takes the plain-digits rendering", "LNumber.String renders an integral value through the float path unless an extra condition holds ("+why+"): integral values below 2^53 print with an exponent (tostring(2^52) = 4.503599627370496e+15)")
 }
 
 func ruleQ(c *Ctx) {
